@@ -35,11 +35,11 @@ func registerIntrinsics(e *Engine) {
 		if hi-lo < 4096 {
 			w.dom[v] = newDomain(lo, int(hi-lo+1))
 		}
-		tb.SetVarRange(v, lo, hi)
 		// the range constraint itself (kept out of the decision list: always feasible)
 		c := tb.And(tb.Cmp(OpSLe, K(64, uint64(lo)), v), tb.Cmp(OpSLe, v, K(64, uint64(hi))))
 		w.pc = append(w.pc, c)
 		w.sol.Assert(c)
+		tb.SetVarRange(v, lo, hi)
 		return v
 	})
 	reg(apiPkg+".Bool", func(fr *frame, a []value) value {
